@@ -52,11 +52,15 @@ def heldOK (nows rel sleeps : List Int) : Bool :=
 
 /-- the whole predicate on one observed limiter run: `N` probes per `W` ns, the clock readings in the
     order the limiter served them, the release times it returned and the intervals it slept -/
-def holds (N W : Int) (nows rel sleeps : List Int) : Bool :=
+def holdsOrdered (N W : Int) (nows rel sleeps : List Int) : Bool :=
   !(decide (1 ≤ N) && decide (0 ≤ W) && clockOK nows) ||
-  (heldOK nows rel sleeps &&
-   rateOK (perProbe N W) burst rel &&
-   rateOK (perProbe N W) burst (sort rel))
+  (heldOK nows rel sleeps && rateOK (perProbe N W) burst rel)
+
+/-- the same plus the order-free reading (the probes numbered by release time instead of by the order the
+    limiter served them; a consequence of the per-pair bound, `C15_any_set`) -/
+def holds (N W : Int) (nows rel sleeps : List Int) : Bool :=
+  holdsOrdered N W nows rel sleeps &&
+  (!(decide (1 ≤ N) && decide (0 ≤ W) && clockOK nows) || rateOK (perProbe N W) burst (sort rel))
 
 /-- sequential sender: wire times `t` of consecutive probes written by one goroutine, no tolerance,
     one unit weaker: `t(i+k-1) - t(i) ≥ (k-2-b)·p` -/
@@ -101,6 +105,6 @@ def countTakes (l : List (Kind × Call)) : Nat := (l.filter (fun x => x.2 == .ta
 def bijective (trace : List (Kind × List Call)) : Bool :=
   let f := flatten trace
   let tb := takesBefore f 0
-  tb == (List.range tb.length).map (· + 1) && countTakes f == tb.length
+  tb == List.range' 1 tb.length && countTakes f == tb.length
 
 end SxVerif.Spec.Limiter
